@@ -1,6 +1,6 @@
 (** C11 -- proofs, part 2: rewriting, listing, and the relation of the model to the specification. *)
 From Coq Require Import ZArith List Bool Lia Permutation Sorted.
-Require Import H4.gen.Gen_AN H4.ANSpec H4.ANModel H4.ANProofs.
+Require Import H4.ANLang H4.gen.Gen_AN H4.ANSpec H4.ANModel H4.ANProofs.
 Import ListNotations.
 Local Open Scope Z_scope.
 
@@ -303,3 +303,62 @@ Proof.
   destruct (atype2tag (AN_KEY2TYPE (n_key nd'))) as [g|] eqn:Eg; [|discriminate]. inversion A'; subst g ref.
   eapply read_image_lemma; try eassumption. reflexivity.
 Qed.
+
+(* ================= 13. several files: when DFANIopen keeps the cached DFAN directory ========================= *)
+Definition nonul (s : list Z) : Prop := forall x, In x s -> x <> 0.
+
+Lemma strncmp_nat_eq : forall n a b, nonul a -> nonul b -> (length a < n)%nat -> (length b < n)%nat ->
+  (strncmp_nat a b n = 0 <-> a = b).
+Proof.
+  induction n as [|n IH]; intros a b Ha Hb La Lb; [lia|].
+  destruct a as [|x a]; destruct b as [|y b]; simpl.
+  - split; reflexivity.
+  - assert (y <> 0) by (apply Hb; left; reflexivity). destruct (Z.eqb_spec y 0); [contradiction|]. split; [lia|discriminate].
+  - assert (x <> 0) by (apply Ha; left; reflexivity). destruct (Z.eqb_spec x 0); [contradiction|]. split; [lia|discriminate].
+  - assert (x <> 0) by (apply Ha; left; reflexivity).
+    destruct (Z.eqb_spec x y) as [->|N].
+    + destruct (Z.eqb_spec y 0); [contradiction|]. simpl in La, Lb.
+      rewrite (IH a b); [split; [intros ->; reflexivity | intros E; inversion E; reflexivity] | | | lia | lia];
+      intros z Hz; [apply Ha | apply Hb]; right; assumption.
+    + destruct (x <? y); split; try lia; intros E; inversion E; contradiction.
+Qed.
+
+Lemma dfan_open_lemma : forall lastfile name mode,
+  nonul lastfile -> nonul name -> strlen lastfile < DF_MAXFNLEN -> strlen name < DF_MAXFNLEN -> mode <> DFACC_CREATE ->
+  (truth (DFANIopen_newfile lastfile name mode) = false <-> lastfile = name).
+Proof.
+  intros a b mode Ha Hb La Lb Hm. unfold DFANIopen_newfile, truth.
+  replace (mode =? 4) with false by (symmetry; apply Z.eqb_neq; exact Hm). simpl. rewrite orb_false_r.
+  unfold strlen, DF_MAXFNLEN in *.
+  rewrite <- (strncmp_nat_eq (Z.to_nat 256) a b Ha Hb) by lia.
+  unfold strncmp. destruct (strncmp_nat a b (Z.to_nat 256) =? 0) eqn:E; simpl.
+  - apply Z.eqb_eq in E. split; [discriminate | intros _; exact E] || (split; [intros _; exact E | reflexivity]).
+  - apply Z.eqb_neq in E. split; [reflexivity | intros X; contradiction] || (split; [discriminate | intros X; contradiction]).
+Qed.
+
+Inductive gop := GOp (o : op) | GFile (n : Z).
+Definition gop_ok (x : gop) : Prop := match x with GOp o => op_types_ok o | GFile _ => True end.
+Definition gstep1 (g : gstate) (x : gop) : gstate := match x with GOp o => fst (gstep g o) | GFile n => gfile g n end.
+Fixpoint grun (g : gstate) (xs : list gop) : gstate := match xs with [] => g | x :: t => grun (gstep1 g x) t end.
+
+Lemma with_stat_Inv : forall l st, Inv l -> Inv (with_stat l st).
+Proof. intros l st HI. apply (Inv_same_tables l); [assumption | repeat split | simpl; apply (inv_refs _ HI)]. Qed.
+
+Lemma gstep1_Inv : forall g x, (forall f, Inv (h_lib (g_files g f))) -> gop_ok x ->
+  forall f, Inv (h_lib (g_files (gstep1 g x) f)).
+Proof.
+  intros g [o|n] HI Hok f; simpl; [|apply HI].
+  unfold gstep. destruct (mstep _ o) as [h2 r] eqn:E. simpl.
+  unfold upd. destruct (f =? g_cur g); [|apply HI].
+  eapply mstep_Inv; [|exact Hok|exact E]. simpl. apply with_stat_Inv. apply HI.
+Qed.
+
+Lemma greachable_Inv : forall xs g, (forall f, Inv (h_lib (g_files g f))) -> Forall gop_ok xs ->
+  forall f, Inv (h_lib (g_files (grun g xs) f)).
+Proof.
+  induction xs as [|x t IH]; simpl; intros g HI Hok f; [apply HI|].
+  inversion Hok; subst. apply IH; [|assumption]. intros f'. apply gstep1_Inv; assumption.
+Qed.
+
+Lemma ginit_Inv : forall names f, Inv (h_lib (g_files (ginit names) f)).
+Proof. intros. simpl. exact Inv_init. Qed.
